@@ -8,7 +8,7 @@
     depth, packed slices of scalars and counted slices of length-delimited
     elements.  Maps and the protobuf repeated forms are decided by the
     correspondence only (see DESIGN.md). *)
-From Plenc Require Import Base Varint Wire VarintProofs WireProofs JsonAny Codec SizeProofs DecBase RoundTripBase.
+From Plenc Require Import Base Varint Wire VarintProofs WireProofs JsonAny Codec SizeProofs DecBase RoundTripBase JsonProofs JsonRoundTrip.
 Open Scope N_scope.
 
 (** ** the supported fragment *)
@@ -38,6 +38,7 @@ Fixpoint rt_ok (c : codec) {struct c} : Prop :=
   | CSliceFix c' => plain_fixed c'
   | CSliceLen c' | CSliceProto c' => rt_ok c' /\ wire c' = WTLength /\ top_ok c'
   | CMap kc vc | CMapProto kc vc => rt_ok kc /\ rt_ok vc /\ top_ok kc /\ top_ok vc
+  | CJMap | CJArr => True
   | _ => False
   end.
 
@@ -63,6 +64,8 @@ Fixpoint wfv (c : codec) (v : val) {struct c} : Prop :=
   | (CSliceVar c' | CSliceFix c' | CSliceLen c' | CSliceProto c'), VSlice l => Forall (wfv c') l
   | (CMap kc vc | CMapProto kc vc), VMap (Some es) =>
     Forall (fun e => (omit kc (fst e) = true \/ wfv kc (fst e)) /\ (omit vc (snd e) = true \/ wfv vc (snd e))) es
+  | CJMap, VJson _ (JObj l) => wfj (JObj l)
+  | CJArr, VJson _ (JArr l) => wfj (JArr l)
   | _, _ => False
   end.
 
@@ -112,6 +115,14 @@ Fixpoint merge (c : codec) (prior v : val) {struct c} : val :=
     | VMap (Some []) => prior
     | _ => v
     end
+  | CJMap =>
+    match v with
+    | VJson _ (JObj l) =>
+      VJson false (JObj (fold_left (fun m kx => assoc_set (fst kx) (snd kx) m) l
+                           (match prior with VJson false (JObj p) => p | _ => [] end)))
+    | _ => v
+    end
+  | CJArr => match v with VJson _ (JArr l) => VJson false (JArr l) | _ => v end
   | _ => v
   end.
 
@@ -379,6 +390,62 @@ Section FieldStep.
       replace (len (enc c' x []) + len (flat_map (fun x0 => enc c' x0 tg) l ++ more) <? len (enc c' x [])) with false
         by (symmetry; apply N.ltb_ge; lia).
       rewrite go_take_app. cbn [bind dec].
+      rewrite <- Hwt at 1. rewrite (RtL Hwt). cbn [bind]. rewrite go_drop_app. cbn [bind].
+      assert (Hfl : (length (flat_map (fun x0 => enc c' x0 tg) l ++ more) < fuel')%nat).
+      { unfold e in Hfuel. cbn [flat_map] in Hfuel. rewrite Ee, <- !app_assoc in Hfuel. rewrite !app_length in Hfuel.
+        rewrite app_length. unfold len in Htg. lia. }
+      rewrite (struct_loop_fuel tbl fuel' (S fuel')) by (exact Hfl || lia).
+      fold tbl.
+      rewrite (IH f c' _ more _ (S fuel') Hin Hc Hok Htop Hwt Hrt Hidx Hall') by (fold tg; lia).
+      fold tg. f_equal.
+      + rewrite !len_app. lia.
+      + destruct l as [|y l'].
+        * cbn [map app]. reflexivity.
+        * rewrite set_nth_twice. apply set_nth_ext. intros Hi.
+          unfold slot. rewrite nth_set_nth_hit by exact Hi. cbn [slice_elems map]. rewrite <- app_assoc. reflexivity.
+  Qed.
+
+  (** ... and a default-mode slice codec ([CSliceLen]) reads the repeated
+      form exactly as the proto-mode codec does (C12) *)
+  Lemma field_step_default_reads_repeated : forall f c' l cur more consumed fuel,
+    In f fs -> f_codec f = CSliceLen c' -> rt_ok c' -> top_ok c' -> wire c' = WTLength -> RTc c' ->
+    (0 <= f_index f < 2305843009213693952)%Z ->
+    Forall (fun x => wfv c' x /\ fits c' x) l ->
+    let e := flat_map (fun x => enc c' x (field_tag (CSliceProto c') (f_index f))) l in
+    (length (e ++ more) < fuel)%nat ->
+    struct_loop tbl fuel (e ++ more) consumed cur
+    = struct_loop tbl fuel more (consumed + len e)
+        (match l with
+         | [] => cur
+         | _ => set_nth (f_slot f) (VSlice (slice_elems (slot cur (f_slot f)) ++ map (merge c' (zero c')) l)) cur
+         end).
+  Proof.
+    intros f c' l. revert f c'. induction l as [|x l IH]; intros f c' cur more consumed fuel Hin Hc Hok Htop Hwt Hrt Hidx Hall e Hfuel.
+    - cbn [flat_map] in e. unfold e. cbn [app]. rewrite len_nil, N.add_0_r. reflexivity.
+    - inversion Hall as [|? ? [Hw Hf] Hall']; subst x0 l0.
+      set (tg := field_tag (CSliceProto c') (f_index f)) in *.
+      assert (Etg : tg = field_tag c' (f_index f)) by (unfold tg, field_tag; cbn [wire]; rewrite Hwt; reflexivity).
+      destruct (tagged_enc_shape c' Hok Htop x (f_index f) Hw Hf) as [ShL _]. rewrite <- Etg in ShL.
+      destruct (ShL Hwt) as [Ee Hlen].
+      destruct (Hrt x (zero c') Hw Hf) as [RtL _].
+      pose proof (field_tag_nonempty (CSliceProto c') (f_index f)) as Htg. fold tg in Htg.
+      destruct fuel as [|fuel']; [lia|].
+      unfold e. cbn [flat_map]. rewrite Ee, <- !app_assoc.
+      rewrite struct_loop_unfold.
+      2:{ intros E0. apply (f_equal (@length N)) in E0. rewrite app_length in E0. unfold len in Htg. cbn [length] in E0. lia. }
+      unfold tg at 1. rewrite read_tag_field by exact Hidx. fold tg. cbv beta iota.
+      replace (Z.of_N (len tg) <=? 0)%Z with false by (symmetry; apply Z.leb_gt; lia).
+      rewrite N2Z.id, go_drop_app. cbn [bind].
+      unfold tbl. rewrite (find_field_tbl fs f Hin Hnd). rewrite Hc.
+      unfold read_field_data. cbn [wire N.eqb WTLength Pos.eqb].
+      rewrite read_append_varuint by exact Hlen.
+      pose proof (append_varuint_length_bounds (len (enc c' x []))) as Hvb.
+      replace (Z.of_N (len (append_varuint (len (enc c' x [])))) <=? 0)%Z with false by (symmetry; apply Z.leb_gt; lia).
+      rewrite N2Z.id, go_drop_app. cbn [bind].
+      rewrite len_app.
+      replace (len (enc c' x []) + len (flat_map (fun x0 => enc c' x0 tg) l ++ more) <? len (enc c' x [])) with false
+        by (symmetry; apply N.ltb_ge; lia).
+      rewrite go_take_app. cbn [bind dec]. change (WTLength =? WTLength) with true. cbv iota.
       rewrite <- Hwt at 1. rewrite (RtL Hwt). cbn [bind]. rewrite go_drop_app. cbn [bind].
       assert (Hfl : (length (flat_map (fun x0 => enc c' x0 tg) l ++ more) < fuel')%nat).
       { unfold e in Hfuel. cbn [flat_map] in Hfuel. rewrite Ee, <- !app_assoc in Hfuel. rewrite !app_length in Hfuel.
@@ -1048,6 +1115,19 @@ Proof.
   - (* CMapProto: only as a struct field *)
     destruct Hok as (Hokk & Hokv & Htk & Htv). split; [intros []|].
     apply frt_proto_map; [exact Hokk|exact Htk|apply (proj1 (IHk Hokk) Htk)|exact Hokv|exact Htv|apply (proj1 (IHv Hokv) Htv)].
+  - (* JSON object *)
+    cbn [wfv] in Hw. destruct v as [| | | | | | | | | | |nm j|]; try contradiction. destruct j as [| | | | | |l|]; try contradiction.
+    cbn [fits] in Hf. cbn [enc app dec merge wire].
+    assert (E : read_varuint (jmap_body l ++ rest) = (N.of_nat (length l), Z.of_N (len (append_varuint (N.of_nat (length l)))))).
+    { unfold jmap_body. rewrite <- app_assoc. apply read_append_varuint. apply Hf. }
+    rewrite E. pose proof (append_varuint_length_bounds (N.of_nat (length l))) as Hb.
+    replace (Z.of_N (len (append_varuint (N.of_nat (length l)))) =? 0)%Z with false by (symmetry; apply Z.eqb_neq; lia).
+    destruct Hw as [_ Hwl]. rewrite (json_map_merge l rest _ Hf Hwl). cbn [bind].
+    destruct prior as [| | | | | | | | | | |pn pj|]; try reflexivity. destruct pn; try reflexivity. destruct pj; reflexivity.
+  - (* JSON array *)
+    cbn [wfv] in Hw. destruct v as [| | | | | | | | | | |nm j|]; try contradiction. destruct j as [| | | | |l| |]; try contradiction.
+    cbn [fits] in Hf. cbn [enc app dec merge wire].
+    rewrite (json_array_roundtrip l rest Hf Hw). reflexivity.
 Qed.
 
 Theorem roundtrip : forall c, rt_ok c -> top_ok c -> RTc c.
